@@ -381,11 +381,24 @@ def main(argv=None):
                 part = os.path.join(work, 'part%d.json' % i)
                 procs.append((i, part, subprocess.Popen(
                     [sys.executable, '-m', 'pbt.cli', pid, '--tier', args.tier, '--shard', str(i),
-                     '--nshards', str(nshards), '--partial', part], cwd=VERIF)))
+                     '--nshards', str(nshards), '--partial', part], cwd=VERIF, start_new_session=True)))
             ctx = Ctx(pid, args.tier, seed, 0, nshards)
             failed = []
+            # watchdog: a shard that does not come back is killed with everything it started and reported as a harness
+            # error (inconclusive), never left hanging
+            limit = getattr(mod, 'SHARD_TIMEOUT', {}).get(args.tier, 1200 if args.tier == 'quick' else 7200)
+            deadline = t0 + limit
             for i, part, p in procs:
-                rc = p.wait()
+                try:
+                    rc = p.wait(timeout=max(1.0, deadline - time.time()))
+                except subprocess.TimeoutExpired:
+                    import signal as _signal
+                    try:
+                        os.killpg(p.pid, _signal.SIGKILL)
+                    except OSError:
+                        pass
+                    p.wait()
+                    rc = 'no result within %d s (killed)' % limit
                 if rc != 0 or not os.path.exists(part):
                     failed.append((i, rc))
                     continue
